@@ -520,7 +520,12 @@ def fam_resume(rnd, n):
             sh = shape([blk([2] * ns, conc, 0, g=bg), blk([1])], pg=pg)
             kpct = rnd.choice([0, 100, 100, 15, 30, 45, 60, 75, 90])
             ages = rnd.choice([0, maxage - 2, maxage - 1, maxage + 1, maxage + 2, maxage * 3, 5])
-            members.append({"shape": sh, "out": out, "kpct": kpct, "ages": ages, "agemode": rnd.choice(["", "", "", "start", "end"])})
+            mode = rnd.choice(["", "", "", "start", "end"])
+            if kind in ("cont", "checks") and rnd.random() < 0.5:
+                mode = "notchk"     # only the Checks objects and their actions carry recent stamps
+                kpct = rnd.choice([30, 45, 60, 75, 90])
+                ages = rnd.choice([maxage + 2, maxage * 3])
+            members.append({"shape": sh, "out": out, "kpct": kpct, "ages": ages, "agemode": mode})
         res.append({"kind": "resume", "shape": members[0]["shape"], "mode": "free", "out": {}, "members": members, "norecovery": rnd.random() < 0.25,
                     "maxages": -1 if zero else maxage, "tag": "resume-zero" if zero else "resume", "latmax": 100, "contdelay": 300})
     return res
